@@ -6,8 +6,34 @@ pub mod report;
 pub mod pool;
 pub mod profiles;
 pub mod shim;
+pub mod sweeps;
 
 pub fn init() {
     shim::install();
     pool::install_panic_hook();
+}
+
+use std::sync::OnceLock;
+static TRACE: OnceLock<std::fs::File> = OnceLock::new();
+
+/// Crash-trace mode: the description of the case about to be executed is written (in place)
+/// to a file, so that a process abort can be pinned on a case. Enabled by `--trace-file`.
+pub fn enable_trace(path: &str) {
+    let f = std::fs::OpenOptions::new().create(true).write(true).truncate(true).open(path).expect("trace file");
+    let _ = TRACE.set(f);
+}
+pub fn tracing() -> bool {
+    TRACE.get().is_some()
+}
+#[inline]
+pub fn trace(desc: impl FnOnce() -> String) {
+    if let Some(f) = TRACE.get() {
+        use std::os::unix::fs::FileExt;
+        let mut s = desc();
+        s.truncate(3900);
+        let mut buf = vec![b' '; 4096];
+        buf[..s.len()].copy_from_slice(s.as_bytes());
+        buf[4095] = b'\n';
+        let _ = f.write_at(&buf, 0);
+    }
 }
